@@ -63,7 +63,11 @@ PROGRAMS = [
                                           ' .cstr "hi"\n'}, ('d3',)),
     ('nested includes', {'main.asm': '#include "n1.asm"\n nop\n', 'd1/n1.asm': '#include "n2.asm"\n ld b, 2\n', 'd2/n2.asm': ' ldx 9\n'}, ('d2', 'd1')),
     ('missing include', {'main.asm': ' nop\n#include "none.asm"\n'}, ('d1', 'd2')),
+    ('several -D', {'main.asm': ' .byte LA, LB, LC\n#if LC >= 1\n nop\n#endif\n'}, ()),
+    ('one name in several -D', {'main.asm': ' .byte LV\n#if LV >= 2\n nop\n#endif\n'}, ()),
 ]
+# command-line symbol definitions of a program (-D), in command-line order
+DEFINES = {'several -D': ('LA=1', 'LB=2', 'LC=LA'), 'one name in several -D': ('LV=1', 'LV=2', 'LV=3', 'LV=4')}
 FORMATS_A = ['listing', 'intel_hex']
 FORMATS_B = ['listing', 'hex', 'intel_hex', 'minhex']
 
@@ -71,8 +75,8 @@ FORMATS_B = ['listing', 'hex', 'intel_hex', 'minhex']
 def meta(tier):
     q = tier == 'quick'
     return {
-        'rule': 'part A: 8 programs (several include directories with unique, ambiguous, shadowing, nested and missing files; registers; '
-                'mnemonics that are prefixes of one another or contain a period; macros; symbols; zones) x 2 output formats; the default '
+        'rule': 'part A: 10 programs (several include directories with unique, ambiguous, shadowing, nested and missing files; registers; '
+                'mnemonics that are prefixes of one another or contain a period; macros; symbols; zones; several -D definitions, also of one name) x 2 output formats; the default '
                 'schedule and every schedule with one (thorough: two) deviating choice point (all permutations for sets of <=4 elements, '
                 'reversal and every rotation above) must produce identical status, image and pretty print; the default schedule is '
                 'replayed twice. Part B: the same programs x 4 formats through the real CLI for hash seeds 0..3 (thorough 0..15) x 2 (thorough 3) '
@@ -117,7 +121,7 @@ def diff_msg(a, b, what):
 def explore_schedules(acc, pi, fmt, bound):
     from mc import setsched
     name, files, incdirs = PROGRAMS[pi]
-    case = Case(ISA, files, incdirs=incdirs, pretty=fmt)
+    case = Case(ISA, files, incdirs=incdirs, pretty=fmt, defines=DEFINES.get(name, ()))
     base, points = run_schedule(case, {})
     acc.count_eval(1, base.status)
     again, points2 = run_schedule(case, {})
@@ -170,7 +174,7 @@ def shard(acc, tier, idx, n):
     for pi, (name, files, incdirs) in enumerate(PROGRAMS):
         perms = list(itertools.permutations(incdirs)) if len(incdirs) <= 3 else [incdirs]
         for fmt in formats_b:
-            ref_case = Case(ISA, files, incdirs=incdirs, pretty=fmt)
+            ref_case = Case(ISA, files, incdirs=incdirs, pretty=fmt, defines=DEFINES.get(name, ()))
             ref = None
             for seed, cwd, perm, envname in itertools.product(seeds, cwds, perms, ('bare', 'cluttered')):
                 ctr += 1
@@ -181,7 +185,7 @@ def shard(acc, tier, idx, n):
                 if ref is None:
                     ref = world.run_cli(ref_case, env_extra={'PYTHONHASHSEED': '0'}, env_base=BARE)
                     acc.count_eval(1, ref.status)
-                case = Case(ISA, files, incdirs=perm, pretty=fmt)
+                case = Case(ISA, files, incdirs=perm, pretty=fmt, defines=DEFINES.get(name, ()))
                 out = world.run_cli(case, env_extra={'PYTHONHASHSEED': str(seed)}, cwd=cwd, env_base=BARE if envname == 'bare' else CLUTTER)
                 acc.count_eval(1, out.status)
                 acc.transition()
